@@ -167,7 +167,7 @@ func fieldWriteSites(p *Prog, key string) (out []struct {
 			case *ast.KeyValueExpr:
 				if id, ok := x.Key.(*ast.Ident); ok {
 					if v, ok := info.ObjectOf(id).(*types.Var); ok && v.IsField() {
-						// resolve struct type of the literal through the parent is costly; compare by name+pkg
+
 						parts := strings.Split(key, ".")
 						if v.Name() == parts[len(parts)-1] && v.Pkg() != nil && strings.HasPrefix(key, short(v.Pkg().Path())+".") {
 							out = append(out, struct {
@@ -187,6 +187,7 @@ func fieldWriteSites(p *Prog, key string) (out []struct {
 			}
 			return true
 		})
+
 	}
 	return out
 }
@@ -201,8 +202,9 @@ func ruleSingleWALWriter(c *Ctx) {
 	allowed := map[string]bool{"executor.NewWALFile": true, fnTakeOver: true, fnFlushCommandsToWAL: true, fnCreateCheckpoint: true, fnReplayTGData: true}
 	sites := fieldWriteSites(c.P, fldLastCommitted)
 	c.Floor(rule, "module", "writes of lastCommittedTGID", len(sites), 5)
+	allowedDom := c.P.GateDominated(allowed) // helpers reachable only through the allowed writers
 	for _, st := range sites {
-		c.Check(allowed[st.Fn.Key], rule, st.Fn.Key, "write:lastCommittedTGID", c.P.Pos(st.Pos),
+		c.Check(allowedDom[st.Fn.Key], rule, st.Fn.Key, "write:lastCommittedTGID", c.P.Pos(st.Pos),
 			"lastCommittedTGID may be written only by "+fmt.Sprint(sortedKeys(allowed)))
 	}
 	// tgID field of the pipe: only through atomic helpers / constructor
@@ -534,7 +536,7 @@ func (s *Scope) derivesFromReadTGData(e ast.Expr, depth int) (bool, string) {
 		defs := 0
 		okAll := true
 		why := ""
-		walkAll(s.Body, func(n ast.Node) bool {
+		s.walk(func(n ast.Node) bool {
 			as, ok := n.(*ast.AssignStmt)
 			if !ok {
 				return true
@@ -559,6 +561,7 @@ func (s *Scope) derivesFromReadTGData(e ast.Expr, depth int) (bool, string) {
 			}
 			return true
 		})
+
 		if defs == 0 {
 			return false, "no definition found for " + x.Name
 		}
@@ -575,7 +578,7 @@ func (s *Scope) derivesFromReadTGData(e ast.Expr, depth int) (bool, string) {
 		stores := 0
 		okAll := true
 		why := ""
-		walkAll(s.Body, func(n ast.Node) bool {
+		s.walk(func(n ast.Node) bool {
 			as, ok := n.(*ast.AssignStmt)
 			if !ok {
 				return true
@@ -592,6 +595,7 @@ func (s *Scope) derivesFromReadTGData(e ast.Expr, depth int) (bool, string) {
 			}
 			return true
 		})
+
 		if stores == 0 {
 			return false, "no store into the container found"
 		}
@@ -616,7 +620,7 @@ func ruleRequesterWaits(c *Ctx) {
 	}
 	// channels sent on txnPipe.flushChannel
 	sent := map[types.Object]bool{}
-	walkAll(s.Body, func(n ast.Node) bool {
+	s.walk(func(n ast.Node) bool {
 		if ss, ok := n.(*ast.SendStmt); ok && fieldKey(s.Info, ss.Chan) == "executor.TransactionPipe.flushChannel" {
 			if o := identObj(s.Info, ss.Value); o != nil {
 				sent[o] = true
@@ -624,6 +628,7 @@ func ruleRequesterWaits(c *Ctx) {
 		}
 		return true
 	})
+
 	waited := func(sub, top ast.Node) bool {
 		if isCall(s.Info, sub, fnFlushToWAL) {
 			return true
@@ -670,7 +675,7 @@ func ruleAckAfterFlushInSyncWAL(c *Ctx) {
 	}
 	// variables bound to a value received from flushChannel
 	reply := map[types.Object]bool{}
-	walkAll(s.Body, func(n ast.Node) bool {
+	s.walk(func(n ast.Node) bool {
 		if as, ok := n.(*ast.AssignStmt); ok && len(as.Rhs) == 1 && len(as.Lhs) >= 1 {
 			if u, ok := unparen(as.Rhs[0]).(*ast.UnaryExpr); ok && u.Op == token.ARROW && fieldKey(s.Info, u.X) == "executor.TransactionPipe.flushChannel" {
 				if o := identObj(s.Info, as.Lhs[0]); o != nil {
@@ -680,6 +685,7 @@ func ruleAckAfterFlushInSyncWAL(c *Ctx) {
 		}
 		return true
 	})
+
 	c.Floor(rule, s.Name, "receives from flushChannel", len(reply), 1)
 	ack := func(sub, top ast.Node) bool {
 		ss, ok := sub.(*ast.SendStmt)
@@ -703,7 +709,7 @@ func ruleAckAfterFlushInSyncWAL(c *Ctx) {
 	// every received request is eventually answered on the normal path: from the select case, the ack is reached before the next loop iteration
 	// (checked as: inside the comm clause body there is an ack statement not nested in a conditional)
 	found := false
-	walkAll(s.Body, func(n ast.Node) bool {
+	s.walk(func(n ast.Node) bool {
 		cc, ok := n.(*ast.CommClause)
 		if !ok || cc.Comm == nil {
 			return true
@@ -728,6 +734,7 @@ func ruleAckAfterFlushInSyncWAL(c *Ctx) {
 		}
 		return true
 	})
+
 	c.Check(found, rule, s.Name, "request-always-answered", c.P.Pos(s.Body.Pos()), "the flush-request case answers unconditionally (a requester is never left blocked)")
 }
 
